@@ -450,7 +450,9 @@ class DocumentationAggregator(CMakeListener):
 
         :param docstring: Cleaned docstring.
         """
-        params = [param.getText() for param in ctx.single_argument()]  # Extract parameters
+        # Extract parameters in source order; parenthesized arguments are arguments too
+        params = [self.argument_text(param) for param in ctx.getChildren(
+            lambda c: isinstance(c, (CMakeParser.Single_argumentContext, CMakeParser.Compound_argumentContext)))]
 
         if len(params) < 2:
             pretty_text = docstring
